@@ -115,9 +115,14 @@ impl World<'_> {
         }
     }
     fn run(&self, op: usize, spec: &TapeSpec) -> Result<OpRun, Fail> {
+        self.run_faulty(op, spec, None)
+    }
+    /// like `run`, with the caller's RNG failing at its `fail_at`-th call
+    fn run_faulty(&self, op: usize, spec: &TapeSpec, fail_at: Option<usize>) -> Result<OpRun, Fail> {
         let s = self.s;
         let m = &self.m;
         let mut rng = spec.rng();
+        rng.fail_at_call = fail_at;
         let e = |x: PErr| Fail::new(format!("{} failed: {x:?}", OPS[op]));
         let mut outs: Vec<Out> = Vec::new();
         let mut all: Vec<u8> = Vec::new();
@@ -353,6 +358,34 @@ pub fn check(s: &'static dyn Proto, c: &Case, st: &mut Stats, _k: &KnownFindings
                 st.label("split:at-0");
             }
         }
+
+        // ---- a failing RNG: the n-th call of the caller's generator fails (try_fill_bytes
+        // returns an error, fill_bytes panics, like OsRng).  The operation may propagate that
+        // failure (panic raised by the RNG itself) or return an error; if it returns Ok, every
+        // random value in its output must still come from a successful draw.
+        let ncalls = a1.rng.ncalls();
+        for k in 1..=ncalls {
+            let r = guarded(|| w.run_faulty(op, &spec_a, Some(k)));
+            st.eval(1);
+            match r {
+                Err(p) if p.contains(crate::tape::RNG_FAILURE_MSG) => st.label("rng-fault:propagated"),
+                Err(p) => return Err(Fail::new(format!("{}: panicked (not the RNG's own failure) when the RNG failed at call {k}: {p}", OPS[op]))),
+                Ok(Err(_)) => st.label("rng-fault:error-returned"),
+                Ok(Ok(run)) => {
+                    for o in &run.outs {
+                        if !matches!(o.w, W::Opaque | W::Derived) && w.witness(o, &run).is_none() {
+                            return Err(Fail::new(format!(
+                                "{}: the RNG failed at call {k} of {ncalls}, the operation still returned Ok, and '{}' = {} does not come from any successful draw",
+                                OPS[op],
+                                o.name,
+                                hex::encode(&o.bytes)
+                            )));
+                        }
+                    }
+                    st.label("rng-fault:ok-with-witnessed-values");
+                }
+            }
+        }
     }
     // ---- no two random values coincide within a run
     for i in 0..all_values_a.len() {
@@ -381,7 +414,7 @@ pub const BUDGET: Budget = Budget {
 pub fn run(cfg: &RunCfg) -> (Outcome, EvidenceExtra) {
     let out = run_property(cfg, "C17", crate::suites::suites20(), BUDGET, strategy, check);
     let ev = EvidenceExtra {
-        rule: "case = inputs plus a pair of independent tapes (a, b) and a split position; for each of the six randomised operations (ServerSetup::new, ClientRegistration::start/finish, ClientLogin::start, ServerLogin::start with and without record): (determinism) two runs on tape a and a third in a fresh thread give byte-identical outputs, states and tape consumption; (freshness) every random value (OPRF blind at registration and login, envelope nonce, masking nonce, client/server nonce, client/server ephemeral keys, OPRF seed, static and fake key pairs, the fake-record masked response) differs between tapes a and b, all of them are pairwise distinct within a run, and each RFC-defined one is witnessed by a recorded draw (nonces/seed verbatim, key pairs = DeriveDiffieHellmanKeyPair(draw), fake masking key = the draw whose pad reproduces the masked response; it differs across attempts); (prefix tapes) on the tape a[..n] ++ b the outputs are identical when all consumed bytes lie before n, otherwise they differ, values whose witness draw lies before n are unchanged and values whose draw starts at or after n change. evaluation = one relation; every case uses non-identical tape pairs; distinct by hash".into(),
+        rule: "case = inputs plus a pair of independent tapes (a, b) and a split position; for each of the six randomised operations (ServerSetup::new, ClientRegistration::start/finish, ClientLogin::start, ServerLogin::start with and without record): (determinism) two runs on tape a and a third in a fresh thread give byte-identical outputs, states and tape consumption; (freshness) every random value (OPRF blind at registration and login, envelope nonce, masking nonce, client/server nonce, client/server ephemeral keys, OPRF seed, static and fake key pairs, the fake-record masked response) differs between tapes a and b, all of them are pairwise distinct within a run, and each RFC-defined one is witnessed by a recorded draw (nonces/seed verbatim, key pairs = DeriveDiffieHellmanKeyPair(draw), fake masking key = the draw whose pad reproduces the masked response; it differs across attempts); (prefix tapes) on the tape a[..n] ++ b the outputs are identical when all consumed bytes lie before n, otherwise they differ, values whose witness draw lies before n are unchanged and values whose draw starts at or after n change; (failing RNG) for every call index k the operation makes, an RNG that fails at call k (try_fill_bytes error / fill_bytes panic) makes the operation propagate that failure or return an error, or, if it returns Ok, every RFC-random value in the output is still witnessed by a successful draw. evaluation = one relation; every case uses non-identical tape pairs; distinct by hash".into(),
         assumptions: vec!["the OPRF blind is checked metamorphically only (RFC 9497 does not fix the sampling method)".into(),
             "32-byte collisions between independent tapes do not occur".into()],
         exhaustive: None,
